@@ -29,7 +29,9 @@ def _q(fr: Fraction) -> str:
 
 
 class Lowerer:
-    def __init__(self, cuts=None, divvar=False):
+    def __init__(self, cuts=None, divvar=False, sqrt_rewrite=False):
+        self.sqrt_rewrite = sqrt_rewrite  # lower sqrt-atom * same sqrt-atom as its argument (n*n -> a)
+        self.sqrt_arg = {}  # sqrt atom symbol -> (N, D) of its argument
         self.divvar = divvar  # True: every quotient is a fresh real q with q*den = num (no cross-multiplication)
         self.cuts = cuts or {}  # nid -> True : nodes abstracted by a fresh real (shared-subterm abstraction)
         self.defs = {}  # name -> (expr, deps tuple)
@@ -150,6 +152,8 @@ class Lowerer:
             return (self.negT(na), da)
         if op == "mul":
             (na, da), (nb, db) = g[n.args[0].nid], g[n.args[1].nid]
+            if self.sqrt_rewrite and na == nb and da is None and db is None and na in self.sqrt_arg:
+                return self.sqrt_arg[na]
             d = db if da is None else (da if db is None else self.mulT(da, db))
             # cancel a numeric denominator against an identical factor is not attempted
             return (self.mulT(na, nb), d)
@@ -161,9 +165,21 @@ class Lowerer:
             den = nb if da is None else self.mulT(da, nb)
             return (num, den)
         if op in ("sqrt", "exp", "log", "atan", "sin", "cos"):
-            return (self.atom(op, n), None)
+            s = self.atom(op, n)
+            if op == "sqrt":
+                self.sqrt_arg[s] = g[n.args[0].nid]
+            return (s, None)
         if op == "pow":
             return (self.atom("pow", n, n.args[1]), None)
+        if op == "ufn":
+            key = ("ufn", n.args[0], n.args[1], tuple(a.fp for a in n.args[2:]))
+            s = self.atom_of.get(key)
+            if s is None:
+                s = self.decl("%s%s#%d" % (n.args[0], list(n.args[1]), len(self.atom_of)), "atom")
+                self.atom_of[key] = s
+                self.atom_info[s] = {"kind": "ufn", "arg": (None, None), "node": n, "extra": None}
+            self.node_atoms[n.nid] = s
+            return (s, None)
         if op == "abs":
             na, da = g[n.args[0].nid]
             num = self.t("(ite (>= %s 0.0) %s (- %s))" % (na, na, na), (na,))
